@@ -8,6 +8,8 @@ CONSTANTS
   Lifecycle = "separate"
   SecondCheck = TRUE
   Filter = FALSE
+  EndKinds = {"cancel"}
+  Honoured = {"cancel", "deadline", "parent"}
   MaxFail = 0
   GiveBack = FALSE
 INVARIANTS AtMostOnce
